@@ -37,6 +37,18 @@ def verify_function(prog, fv, setup, goals, contracts=None, models=None, loops=N
         holder['it'] = it
         it.split_minmax = split_minmax
         args, kw = setup(ctx, it)
+        kw = dict(kw)
+        pool = kw.pop('$pool', None)
+        if pool:
+            # the rest of the caller's shared state, by the caller's names: a parameter of the function under contract that
+            # the positional / keyword arguments do not cover and that has no default is bound from the pool when its name is
+            # there (the code may thread more of the shared state through than it did when the contract was written)
+            a_ = fv.node.args
+            names_ = [x.arg for x in a_.posonlyargs + a_.args]
+            nodef_ = set(names_[:len(names_) - len(a_.defaults)]) | {x.arg for x, d_ in zip(a_.kwonlyargs, a_.kw_defaults) if d_ is None}
+            for nm_ in names_[len(args):] + [x.arg for x in a_.kwonlyargs]:
+                if nm_ not in kw and nm_ in nodef_ and nm_ in pool:
+                    kw[nm_] = pool[nm_]
         holder['args'] = (args, kw)
         try:
             res = it.call_fn(fv, list(args), dict(kw), force_inline=True)
